@@ -295,7 +295,15 @@ Section Hier.
                                 then match spec_of lv m with Some sp => Some (mkCand m sp) | None => None end
                                 else None) ms)).
 
-  (* _pull *)
+  (* _pull: the group led by the first candidate -- a later candidate joins it unless a member of the group (the
+     leader or a candidate that joined before) dominates it (since the repair of KF-53; before it only the leader
+     was asked, so a candidate dominated by another member stayed in the group) *)
+  Fixpoint grp (kept : list cand) (rest : list cand) : list cand :=
+    match rest with
+    | [] => []
+    | c2 :: r => if existsb (fun c => dominates c c2) kept then grp kept r else c2 :: grp (kept ++ [c2]) r
+    end.
+
   Fixpoint pull (fuel : nat) (cs : list cand) (processed : list nat) : list (list cand) :=
     match fuel with
     | O => []
@@ -303,7 +311,7 @@ Section Hier.
         match filter (fun c => negb (memb (m_id (c_m c)) processed)) cs with
         | [] => []
         | c1 :: rest =>
-            let nd := filter (fun c2 => negb (dominates c1 c2)) rest in
+            let nd := grp [c1] rest in
             (c1 :: nd) :: pull f rest (processed ++ map (fun c => m_id (c_m c)) nd)
         end
     end.
